@@ -1180,6 +1180,31 @@ pub fn suite_stacks(ctx: &mut Ctx) {
                         ctx.violation("C08", &req, format!("run without failing hook: {:?}", full.status));
                         continue;
                     }
+                    // RE-USE of one `Replace` value for a second diff (same pair again): `finish` flushes what is pending and
+                    // resets the adapter, so the hook behind it is told the same calls twice -- the stream of a fresh adapter,
+                    // finished once, two times over (owned hook and hook lent as `&mut`)
+                    if stack == Stack::None && native && dl.is_none() && old.len() + new.len() <= 24 {
+                        let twice: Vec<Call> = full.trace.iter().chain(full.trace.iter()).cloned().collect();
+                        for rs in [Stack::Replace, Stack::ReplaceMutRef] {
+                            let once = run_script(rs, old, new, &full.trace, false);
+                            let both = run_script(rs, old, new, &twice, false);
+                            ctx.count("stacks.replace_reuse_cases");
+                            let want: Vec<Call> = once.trace.iter().chain(once.trace.iter()).cloned().collect();
+                            if both.status != Status::Ok || both.trace != want {
+                                ctx.violation(
+                                    "C08",
+                                    &req,
+                                    format!(
+                                        "the same Replace adapter ({}) used for this diff twice in a row tells its hook {} ({:?}); a fresh adapter tells it {} each time",
+                                        rs.name(),
+                                        proto::show_calls(&both.trace),
+                                        both.status,
+                                        proto::show_calls(&once.trace)
+                                    ),
+                                );
+                            }
+                        }
+                    }
                     let fins = full.trace.iter().filter(|x| **x == Call::Finish).count();
                     if stack == Stack::ReplaceNoFinish {
                         // Replace in front of the wrapper: the wrapper must forward `replace` itself,
